@@ -50,9 +50,11 @@ class PestGrammarError(Exception):
         return None
 
     def _error_context(self, text: str, index: int) -> tuple[int, int, str, str, str]:
-        # An index at (or past) the end of the text is reported on the last line;
-        # an empty text has one empty line.
-        lines = text.splitlines(keepends=True) or [""]
+        # An empty text has one empty line, and so has the end of a text that ends
+        # with a line break: an index there is at the start of that empty line.
+        lines = text.splitlines(keepends=True)
+        if not lines or lines[-1].splitlines() != [lines[-1]]:
+            lines.append("")
         cumulative_length = 0
         target_line_index = len(lines) - 1
 
